@@ -119,7 +119,7 @@ def runInvs (fs : FS) : List String → List String
     r :: runInvs w.fs rest
 
 /-- drop the `same=` field (full metadata equality incl. mtime: only meaningful for C10) -/
-def dropSame (r : String) : String := ";".intercalate ((r.splitOn ";").filter (fun x => !x.startsWith "same=" && !x.startsWith "sched=" && !x.startsWith "dev=" && !x.startsWith "rexit=" && !x.startsWith "rfailed="))
+def dropSame (r : String) : String := ";".intercalate ((r.splitOn ";").filter (fun x => !x.startsWith "same=" && !x.startsWith "sched=" && !x.startsWith "dev=" && !x.startsWith "rexit=" && !x.startsWith "rfailed=" && !x.startsWith "queues="))
 
 def fieldOf (r name : String) : String :=
   (((r.splitOn ";").find? (fun x => x.startsWith (name ++ "="))).map (fun x => (x.drop (name.length + 1)).toString)).getD ""
@@ -369,6 +369,22 @@ def c13 (fs0 : FS) (invs impl : List String) (specV : String) : String := Id.run
   if dup then return "KNOWN:dup-entry-rej-overwrite"
   return "ok"
 
+/-- C07 on the implementation, at the level of the driver: the parallel driver reports (hook) which file patches it
+queued for which worker thread, `thread:patch:old:new`.  Every file name (compared the way `Path` compares: by
+components) must be mentioned — as old or as new name of a queued file patch — by the queue of ONE worker only; then
+names related through any file patch, directly or through a chain, are on one worker, and no file is loaded or
+written by two. -/
+def queuesOK (q : String) : Bool :=
+  let ents : List (Nat × List Comp) := (q.splitOn ",").flatMap (fun e =>
+    match e.splitOn ":" with
+    | [t, _, o, n] => ([o, n].filter (· != "~")).map (fun x => (natOf t, components (unhex x)))
+    | _ => [])
+  ents.all (fun (t, c) => ents.all (fun (t', c') => c != c' || t == t'))
+
+def c07 (impl : List String) : String :=
+  let qs := (impl.map (fun r => fieldOf r "queues")).filter (fun q => q != "" && q != "-")
+  if qs.isEmpty then "na" else if qs.all queuesOK then "ok" else "FAIL:name-on-two-workers"
+
 /-- C19 on the implementation: nothing outside the working directory appeared, vanished or changed -/
 def c19 (impl : List String) : String :=
   if impl.all (fun r => fieldOf r "outside" == "ok") then "ok" else "FAIL:touched-outside"
@@ -428,7 +444,7 @@ def step (fields : List String) : String :=
     let c06 := if !par then "na" else if !(invs.all (rangeParses (parseTree tree))) then "na"
                else if specV.startsWith "KNOWN:" then specV
                else if specV != "ok" then "FAIL:differs-from-single-threaded:" ++ (specV.splitOn " ").headD "" else if !ok then "MODEL" else "ok"
-    s!"{cid} eq={boolS (ok || c06 == "na" && par)} firstbad={optNatS firstBad} C06={c06} SPEC={specV} ABS={absVerdict (parseTree tree) invs impl} C08S={c08Statement (parseTree tree) invs impl} C13={c13 (parseTree tree) invs impl specV} C10={c10 invs impl ioFlags} C15={c15 impl} C19={c19 impl} C11={c11 impl} model={"|".intercalate m}"
+    s!"{cid} eq={boolS (ok || c06 == "na" && par)} firstbad={optNatS firstBad} C06={c06} SPEC={specV} ABS={absVerdict (parseTree tree) invs impl} C08S={c08Statement (parseTree tree) invs impl} C13={c13 (parseTree tree) invs impl specV} C10={c10 invs impl ioFlags} C15={c15 impl} C19={c19 impl} C11={c11 impl} C07={c07 impl} model={"|".intercalate m}"
   | _ => "bad-line"
 
 /-- Engine `F` (C18): one invocation with the k-th file-system write failing.
